@@ -30,6 +30,7 @@
 EXTENDS HGBase, Json, IOUtils, TLC, TLCExt
 
 CONSTANT Bug            \* "none" | "permit_at_graphnode" (graph/map nodes hold a permit while their children run) | "no_permit"
+                        \* | "sync_no_permit" (synchronous functions run without a permit)
 
 Plans == JsonDeserialize(IOEnv.HG_PLANS)
 
@@ -45,7 +46,8 @@ FIds   == 1..Len(Frames)
 Limited == K > 0
 
 NeedsPermit(t) == Limited /\ Bug # "no_permit"
-                  /\ ((Tasks[t].kind = "leaf" /\ Tasks[t].permit) \/ (Bug = "permit_at_graphnode" /\ Tasks[t].kind # "leaf"))
+                  /\ ((Tasks[t].kind = "leaf" /\ Tasks[t].permit /\ ~(Bug = "sync_no_permit" /\ Tasks[t].instant))
+                      \/ (Bug = "permit_at_graphnode" /\ Tasks[t].kind # "leaf"))
 FrameTasks(f, s) == {t \in TIds : Tasks[t].frame = f /\ Tasks[t].step = s}
 FrameDone(f)     == fstep[f] > Frames[f].nsteps
 FrameActive(f)   == fstep[f] >= 1 /\ ~FrameDone(f)
@@ -123,6 +125,10 @@ Spec == Init /\ [][Next]_vars /\ WF_vars(Next)
 InFlight  == Cardinality({t \in TIds : Tasks[t].kind = "leaf" /\ Tasks[t].permit /\ tstate[t] = "running"})
 Bounded   == Limited => InFlight <= K
 PermitsOK == Limited => (permits >= 0 /\ permits <= K)
+\* a synchronous function body (it runs to completion inside one action) also counts while it executes:
+\* it may only execute when fewer than K bodies are in flight
+SyncFits  == [][\A t \in TIds : (Tasks[t].kind = "leaf" /\ Tasks[t].permit /\ Tasks[t].instant
+                                  /\ tstate[t] # "done" /\ tstate'[t] = "done") => (~Limited \/ InFlight < K)]_vars
 \* every leaf completes exactly once by the end
 AllRan    == Finished => \A t \in TIds : tstate[t] = "done"
 Terminates == <>Finished
